@@ -304,6 +304,12 @@ func (r *Report) Finish(verifDir string, canaries []Canary, started time.Time, e
 	for k, v := range extra {
 		cov[k] = v
 	}
+	if r.Assumptions == nil {
+		r.Assumptions = []string{}
+	}
+	if r.NotDecided == nil {
+		r.NotDecided = []string{}
+	}
 	ev := map[string]interface{}{
 		"property_id": r.Prop,
 		"tier":        r.Tier,
